@@ -1638,6 +1638,8 @@ var ruleOutlineDescend = &Rule{
 	Run: func(c *Ctx) []Ob {
 		var obs []Ob
 		n := 0
+		descends := map[*ssa.Function]bool{}
+		var wrappers, pending []*ssa.Function
 		for _, f := range c.ModFns() {
 			if len(f.Params) == 0 || f.Blocks == nil {
 				continue
@@ -1728,8 +1730,54 @@ var ruleOutlineDescend = &Rule{
 			key := "OUTLINE/descend:" + fnKey(f)
 			if recursesOnSub {
 				obs = append(obs, Ob{Key: key, Site: c.Pos(f.Pos()), Verdict: OK, Note: "descends into the member's own members"})
+				descends[f] = true
 			} else if soleWrapper(f) {
 				n--
+				wrappers = append(wrappers, f)
+			} else {
+				pending = append(pending, f)
+			}
+		}
+		// a wrapper of a descending builder descends; a builder that obtains every member's entry from a descending
+		// builder (fillTableSymbolChildren -> varInfo.FindAllVar) delegates the descent
+		for _, w := range wrappers {
+			for _, b := range w.Blocks {
+				for _, ins := range b.Instrs {
+					if call, ok := ins.(*ssa.Call); ok {
+						if g := call.Call.StaticCallee(); g != nil && descends[g] {
+							descends[w] = true
+						}
+					}
+				}
+			}
+		}
+		for _, f := range pending {
+			key := "OUTLINE/descend:" + fnKey(f)
+			delegates := false
+			for _, b := range f.Blocks {
+				for _, ins := range b.Instrs {
+					if call, ok := ins.(*ssa.Call); ok {
+						g := call.Call.StaticCallee()
+						if g == nil {
+							continue
+						}
+						if descends[g] {
+							delegates = true
+						}
+						if g.Blocks != nil && soleWrapper(g) { // FindAllVar -> findAllVarDepth
+							for _, i2 := range g.Blocks[0].Instrs {
+								if c2, ok := i2.(*ssa.Call); ok {
+									if h := c2.Call.StaticCallee(); h != nil && descends[h] {
+										delegates = true
+									}
+								}
+							}
+						}
+					}
+				}
+			}
+			if delegates {
+				obs = append(obs, Ob{Key: key, Site: c.Pos(f.Pos()), Verdict: OK, Note: "obtains each member's entry from a builder that descends"})
 			} else {
 				obs = append(obs, Ob{Key: key, Site: c.Pos(f.Pos()), Verdict: VIOLATION,
 					Note: fnKey(f) + " builds symbol entries for the members of a table but never looks at the members of a member: `function t.a.f() end` is missing from the outline / the symbol index"})
